@@ -35,6 +35,8 @@ fn packets(enc: &SourceBlockEncoder, K: usize, es: &[u32]) -> Vec<EncodingPacket
 }
 
 fn run_case(ctx: &Ctx, gf: &Gf, K: usize, T: usize, seed: u64, route: u64, rel: &[AtomicU64; 4]) {
+    crashlog::set_case_fields(&["K", "T", "data_seed", "route"]);
+    crashlog::note(crashlog::CASE, &[K as u64, T as u64, seed, route]);
     let mut rng = Rng::new(seed);
     let a = gen_data(&mut rng, seed, K * T);
     let b = gen_data(&mut rng, seed / 4, K * T);
